@@ -126,7 +126,13 @@ pub struct Case {
     pub origin: String,
     /// the caller's flag is a zero-sized type (state kept elsewhere)
     pub zst_flag: bool,
+    /// the caller's flag signals with an error value of its own (not the poll's label): that
+    /// very error must come back
+    pub own_payload: bool,
 }
+
+/// The error value a flag with `own_payload` signals with.
+const OWN_PAYLOAD: &str = "interrupted by the caller";
 
 impl Case {
     pub fn to_json(&self) -> J {
@@ -141,6 +147,7 @@ impl Case {
             "k_cap": self.k_cap,
             "origin": self.origin,
             "zst_flag": self.zst_flag,
+            "own_payload": self.own_payload,
         })
     }
     pub fn from_json(j: &J) -> Case {
@@ -155,6 +162,7 @@ impl Case {
             k_cap: j["k_cap"].as_u64().unwrap_or(100_000),
             origin: j["origin"].as_str().unwrap_or("").to_string(),
             zst_flag: j["zst_flag"].as_bool().unwrap_or(false),
+            own_payload: j["own_payload"].as_bool().unwrap_or(false),
         }
     }
 }
@@ -346,7 +354,7 @@ this program executes by construction require at least {}",
             continue;
         }
         simrun::log_clear();
-        let (out, polls_seen, polls_after) = exec_with_flag(case.zst_flag, SimFlag::failing_from(k), &file, &tree, &case.source, case.lazy, &fns, &vars);
+        let (out, polls_seen, polls_after) = exec_with_flag(case.zst_flag, SimFlag::failing_from(k).with_payload(if case.own_payload { Some(OWN_PAYLOAD) } else { None }), &file, &tree, &case.source, case.lazy, &fns, &vars);
         let log = simrun::log_take();
         st.executions += 1;
         let at = match &cnt_log[poll_pos[(k - 1) as usize]] {
@@ -367,7 +375,20 @@ this program executes by construction require at least {}",
         // oracle 1
         match &out {
             Outcome::Error(e) if e.top_is_cancelled => {
-                if e.cancelled_at.as_deref() != Some(at) {
+                if case.own_payload && e.cancelled_at.as_deref() != Some(OWN_PAYLOAD) {
+                    return (
+                        st,
+                        Some(Found {
+                            class: "cancellation-error-replaced",
+                            k,
+                            detail: format!(
+                                "the flag signalled at poll {} ({:?}) with its own error value {:?}, but execution returned a cancellation error carrying {:?}",
+                                k, at, OWN_PAYLOAD, e.cancelled_at
+                            ),
+                        }),
+                    );
+                }
+                if !case.own_payload && e.cancelled_at.as_deref() != Some(at) {
                     return (
                         st,
                         Some(Found {
@@ -516,7 +537,23 @@ this program executes by construction require at least {}",
 fn template(r: &mut Rng, lazy: bool) -> (String, String, u64, &'static str) {
     let m = r.range(1, 40); // matches
     let src = pysrc::passes(m);
-    match r.below(8) {
+    match r.below(9) {
+        8 => {
+            // a scan inside an arm of another scan: o outer iterations, i inner ones each
+            let o = r.range(1, 4);
+            let i = r.range(1, 20);
+            let min = (m * (1 + o + o * (1 + i))) as u64 + if lazy { m as u64 } else { 0 };
+            (
+                format!(
+                    "(pass_statement) @_p\n{{\n  scan \"{}\" {{\n    \"[a-z]\" {{\n      scan \"{}\" {{\n        \"x\" {{\n        }}\n      }}\n    }}\n  }}\n}}\n",
+                    "a".repeat(o),
+                    "x".repeat(i)
+                ),
+                src,
+                min,
+                "nested-scan",
+            )
+        }
         7 => {
             // one attr statement whose single attribute is a shorthand expanding to A attributes
             let a = r.range(2, 8);
@@ -668,6 +705,7 @@ pub fn make_case(ctx: &ShardCtx, i: u64) -> Case {
             k_cap,
             origin: format!("template:{}", name),
             zst_flag: r.chance(1, 3),
+            own_payload: r.chance(1, 3),
         };
     }
     let cfg = gen::GenCfg {
@@ -702,6 +740,7 @@ pub fn make_case(ctx: &ShardCtx, i: u64) -> Case {
         k_cap,
         origin: "generated".to_string(),
         zst_flag: r.chance(1, 3),
+        own_payload: r.chance(1, 3),
     }
 }
 
